@@ -67,6 +67,18 @@ theorem leading_child_chain_semantics (b : String) (k : Nat) (node : Frame) (up 
       (if node.isElem && node.name = b then (if k ≤ up.length then .yes else .no) else .no) :=
   leading_child_chain b k node up fuel hf
 
+/-- `A (>)^k B`, k ≥ 1: the node is an element named `B` whose k-th ancestor is an element named `A` (`a > > b`: `a` is the
+    grandparent) -/
+theorem child_chain_between_semantics (a b : String) (k : Nat) (node : Frame) (up : List Frame) (fuel : Nat) (hk : 1 ≤ k)
+    (hf : k + 3 ≤ fuel) :
+    doMatches (.elem b :: (List.replicate k .child ++ [.elem a])) (node :: up) fuel =
+      (if node.isElem && node.name = b then
+        (match up[k - 1]? with
+         | some anc => if anc.isElem && anc.name = a then .yes else .no
+         | none => .no)
+       else .no) :=
+  child_chain_between a b k node up fuel hk hf
+
 /-- `> html` matches the root element, `> > html` does not: below the document node there is nothing to climb to -/
 example :
     let html : Frame := { isElem := true, name := "html" }
